@@ -79,6 +79,17 @@ AllEnums(doc) == FlattenSeq([k \in 1..Len(Order(doc)) |-> doc.files[Order(doc)[k
 Constants(doc) == UNION {{<<AllEnums(doc)[e].entries[i].name, Literal(AllEnums(doc)[e].entries[i].text)>> :
                               i \in 1..Len(AllEnums(doc)[e].entries)} : e \in 1..Len(AllEnums(doc))}
 
+\* MAVLink validity (what mavgen's duplicate check refuses): within one enum (all its parts merged by name) no two entries
+\* denote the same value and no two entries have the same name. The grammar of the harness is meant to produce valid
+\* documents only; the monitor says so when it does not (harness sanity, never a verdict about the generator).
+EnumValuesUnique(doc) ==
+  LET E == AllEnums(doc)
+      pairs == {p \in (1..Len(E)) \X (1..8) : p[2] <= Len(E[p[1]].entries)}
+  IN \A p, q \in pairs :
+       (p # q /\ E[p[1]].name = E[q[1]].name) =>
+          /\ Literal(E[p[1]].entries[p[2]].text) # Literal(E[q[1]].entries[q[2]].text)
+          /\ E[p[1]].entries[p[2]].name # E[q[1]].entries[q[2]].name
+
 \* can the generator's output format express the document (every valid document of the grammar can)
 Expressible(doc) ==
   \A m \in ToSet(Messages(doc)) : SizeExt(m) <= 255 /\ \A i \in 1..Len(m.fields) : m.fields[i].n <= 255
